@@ -205,6 +205,7 @@ class Module(object):
         self.normalize_log += normalize.eta_reduce_callbacks(self.tree)
         self.normalize_log += normalize.desugar_struct_objects(self.tree)
         self.normalize_log += normalize.unroll_reflective_loops(self.tree)
+        self.normalize_log += normalize.fold_single_use_conditions(self.tree)
         self.normalize_log += normalize.thread_flags(self.tree)
         self.normalize_log += normalize.strip_passthrough_wrappers(self.tree, name)
         self.wrapped = getattr(self.tree, "_wrapped", {})  # id(expr node) -> pass-through wrapper it was handed to
